@@ -136,6 +136,21 @@ def junk(sim, ep, addr, n):
     sim.deliver(d)
 
 
+def spoofed_initial(sim, r):
+    """an Initial packet with a fresh number, built with the client's (public) Initial keys,
+    arriving at the server from JUNK_ADDR in a 1200-byte datagram"""
+    from . import inject
+    c = sim.client.conn
+    pn = c._packet_number + r.choice([0, 3])
+    data = inject.build(sim, sim.client, b"\x01", epoch="INITIAL", pn=pn, pad_to=1200)
+    if data is None:
+        return
+    if pn >= c._packet_number:
+        c._packet_number = pn + 1
+    d = {"id": -3, "src": None, "dst": sim.server, "data": data, "to": sim.server.addr, "from": JUNK_ADDR, "t": sim.now}
+    sim.deliver(d)
+
+
 def make_sim(seed, orc, zero_rtt=False, client_mds=1200, server_mds=1200, extra=()):
     mons = [orc] + list(extra)
     co = {"max_datagram_size": client_mds}
@@ -174,12 +189,20 @@ def run_scenario(seed, mode, steps=150, extra=()):
         x = r.random()
         if x < 0.06:
             junk(sim, sim.server, r.choice([S.CLIENT_ADDR, sim.client.addr, JUNK_ADDR]), r.choice([1, 33, 100, 250, 700, 1200]))
-        elif x < 0.09 and mode != "handshake-clean":
+        elif x < 0.075 and not sim.client.terminated:
+            # a spoofed-source Initial: correctly protected (Initial keys are public), sent from a third address
+            spoofed_initial(sim, r)
+        elif x < 0.10:
+            who = r.choice(sim.endpoints)
+            if not who.terminated:
+                sim.api(who, "send_ping", r.randrange(1000))       # application PING: no probe allowance
+                sim.transmit(who)
+        elif x < 0.12 and mode != "handshake-clean":
             who = r.choice(sim.endpoints)
             if not who.terminated:
                 sim.api(who, "close", error_code=r.choice([0, 7]), reason_phrase="bye")
                 sim.transmit(who)
-        elif x < 0.16 and (sim.client.conn._handshake_complete or zero):
+        elif x < 0.19 and (sim.client.conn._handshake_complete or zero):
             who = r.choice(sim.endpoints)
             if not who.terminated and who.conn._handshake_complete or (zero and who is sim.client):
                 sim.api(who, "send_stream_data", 0 if who is sim.client else 1, bytes(r.choice([10, 3000, 30000])))
@@ -223,6 +246,20 @@ def directed(seed, kind, extra=()):
         if r.random() < 0.7:
             sim.fire_timer(sim.client)                    # PTO before the answer arrives
         settle(sim, r.choice([30, 300]))
+        return sim, orc
+    if kind == "ping_full_window":
+        # the window is full of stream data; the application asks for PINGs: they must wait
+        sim = make_sim(seed, orc, extra=extra)
+        sim.handshake()
+        who = r.choice(sim.endpoints)
+        sim.api(who, "send_stream_data", 0 if who is sim.client else 1, bytes(r.choice([60000, 200000])))
+        sim.transmit(who)
+        for _ in range(r.choice([1, 3])):
+            if r.random() < 0.5 and sim.pending:
+                sim.deliver(sim.pending.pop(0))
+            sim.api(who, "send_ping", r.randrange(1000))
+            sim.transmit(who)
+        settle(sim, 40)
         return sim, orc
     sim = make_sim(seed, orc, extra=extra)
     sim.connect()
